@@ -27,7 +27,7 @@ def main():
     ok, log = coq.make(targets)
     if not ok:
         # keep going file by file so that one broken property does not block the others
-        ok2, log2 = coq.make(['-k'] + targets)
+        ok2, log2 = coq.make(targets, keep_going=True)
         print(log2[-3000:])
         print('setup: some theories did not build; the corresponding checks will report it')
     print(f'setup: {len(targets)} Coq files, gate scanned {n} files')
